@@ -361,7 +361,8 @@ def run_C16(ctx):
 
 core.register("C11", "Props.C11", "theories/Props/C11.vo",
               ["C11_idle_disk_is_journal", "C11_invariant", "C11_structure", "C11_write_appends",
-               "C11_rotation", "C11_on_disk_size", "C11_name_roundtrip", "C11_name_order", "C11_dump_after_flush_idle", "C11_dump_is_journal_refuted", "C11_dump_file_encs"])
+               "C11_rotation", "C11_on_disk_size", "C11_name_roundtrip", "C11_name_order", "C11_dump_after_flush_idle", "C11_dump_is_journal_refuted", "C11_dump_file_encs",
+               "C11_invariant_restarts"])
 
 
 def parse_stat_chunks(f):
